@@ -1076,6 +1076,10 @@ def replay_known(run):
     return s, c
 
 
+GUARD_EXPR = "sugar_guard g s"
+GUARD_IMPORTS = "SugarCompose SugarComposeX"
+
+
 def run(run):
     rng = random.Random(run.seed)
     thorough = run.tier == "thorough"
@@ -1103,6 +1107,10 @@ def run(run):
             "uses_mexpr_var_and_free_nt_same_type": 0, "uses_numeric_quantifier": 0, "uses_infix_chain": 0}
     cases, meta = [], []          # tie (i)
     eval_viol = []                # tie (ii)
+    case_of = {}                  # formula number -> index in `cases` (guard evaluation in Coq)
+    pairs_of = {}                 # formula number -> number of sugar/core evaluation pairs
+    pushin_of = {}                # formula number -> disagreements attributed to K_pushin_empty
+    excused = []                  # (formula number, witness) of disagreements attributed to a static K class
     per_g = {}
     for n in range(nform):
         gi = rng.randrange(len(GRAMMARS))
@@ -1139,6 +1147,7 @@ def run(run):
             hist["parse_raise"] += 1
             lit = f"(Raise {r[1]})"
         if lit is not None:
+            case_of[n] = len(cases)
             cases.append((gi, f"({g_sform(f)}, {lit})"))
             meta.append((gi, f, sugar, r))
         if n < 3:
@@ -1177,7 +1186,9 @@ def run(run):
             hist["eval_pairs"] += 1
             if r[0] != "ok" and rc[0] != "ok":
                 hist["eval_agree"] += 1          # ill-formed either way (unbound variable)
-            elif not known_static():
+            elif known_static():
+                pass                             # parser rejection of one text: the theorem assumes elab = Ok
+            else:
                 eval_viol.append({"kind": "sugar and documented core: one is rejected by the parser", "grammar": gi,
                                   "sugar": sugar, "core": core_txt, "sugar_parse": list(r[:1]) + list(r[1:] if r[0] != "ok" else []),
                                   "core_parse": list(rc[:1]) + list(rc[1:] if rc[0] != "ok" else []),
@@ -1189,6 +1200,7 @@ def run(run):
             t = derive(rng, gen.cg, cost, "<start>", rng.randint(1, 4))
             vs, vc = impl_eval(r[1], t, g), impl_eval(rc[1], t, g)
             hist["eval_pairs"] += 1
+            pairs_of[n] = pairs_of.get(n, 0) + 1
             verdicts.add(vs)
             if vs == vc:
                 hist["eval_agree"] += 1
@@ -1199,9 +1211,14 @@ def run(run):
             # non-numeral: DomainError)
             if kflag and (vs == ("ok", "FALSE") or vs[0] == "raise") and vc == ("ok", "TRUE") and "K_pushin_empty" in known:
                 hist["known_pushin_empty"] += 1
+                pushin_of[n] = pushin_of.get(n, 0) + 1
                 run.known(known["K_pushin_empty"]["what"])
                 continue
+            wit = {"grammar": gi, "sugar": sugar, "core": core_txt, "input": str(t), "sugar_verdict": list(vs),
+                   "core_verdict": list(vc), "K_pushin_empty": kflag, "domain_sizes": doms,
+                   "K_dotdot_polarity": kd, "K_fresh_clash": kf, "K_root_also_free": kr, "K_xpath_dup": kx}
             if known_static():
+                excused.append((n, wit))         # re-examined below: inside the proved guard no class may excuse it
                 continue
             eval_viol.append({"kind": "sugar and documented core evaluate differently", "grammar": gi,
                               "sugar": sugar, "core": core_txt, "input": str(t), "sugar_verdict": list(vs),
@@ -1216,13 +1233,28 @@ def run(run):
     gdefs = "".join(f"Definition G{gi} : grammar := {g_grammar(canonical(g))}.\n" for gi, g in enumerate(GRAMMARS))
     per = 130 if thorough else 190
     allc = [(f"(G{gi}, {c[1:]}", m) for (gi, c), m in zip(cases, meta)]     # c = "(sform, res)" -> "(Gi, sform, res)"
+    # every case literal is defined once (c_i) and listed twice: (false, c_i) is the AST tie, (true, c_i) evaluates the
+    # boolean guard of the end-to-end theorem C08_sugar_core_noxpath_partial (index reported <=> INSIDE the guard)
+    shard_base = []
     for k in range(0, len(allc), per):
         chunk = allc[k:k + per]
-        shards.append((gdefs, [c for c, _ in chunk]))
+        defs = gdefs + "".join(f"Definition c_{i} : grammar * sform * res cform := {c}.\n" for i, (c, _) in enumerate(chunk))
+        shards.append((defs, [f"(false, c_{i})" for i in range(len(chunk))] + [f"(true, c_{i})" for i in range(len(chunk))]))
         smeta.append([m for _, m in chunk])
-    ok_def = "fun c : grammar * sform * res cform => let '(g, s, r) := c in res_eqb cf_eqb (elab g s) r"
+        shard_base.append(k)
+    ok_def = ("fun c : bool * (grammar * sform * res cform) => let '(b, (g, s, r)) := c in "
+              f"if b then negb ({GUARD_EXPR}) else res_eqb cf_eqb (elab g s) r")
+    inside = set()                # indices into `cases` that lie inside the guard
+    guard_known = False
     try:
-        bad, dt = lib.coq_run_shards("c08", "Str Outcome Tree Grammar Formula Sugar", ok_def, shards)
+        bad_all, dt = lib.coq_run_shards("c08", "Str Outcome Tree Grammar Formula Sugar " + GUARD_IMPORTS, ok_def, shards)
+        bad = []
+        for (k, i) in bad_all:
+            if i >= len(smeta[k]):
+                inside.add(shard_base[k] + i - len(smeta[k]))
+            else:
+                bad.append((k, i))
+        guard_known = True
         run.cov["coq_seconds_ast"] = round(dt, 1)
         run.cov["ast_disagreements"] = len(bad)
         for (k, i) in bad:
@@ -1251,6 +1283,21 @@ def run(run):
     except RuntimeError as e:
         run.violation({"kind": "correspondence-not-evaluable", "obligation": "Sugar.v elab cases", "error": str(e)[-2000:]},
                       found_input=False)
+    # ---- the guard of the end-to-end theorem, evaluated in Coq on every case
+    if guard_known:
+        in_n = {n for n, ci in case_of.items() if ci in inside}
+        hist["inside_guard_formulas"] = len(in_n)
+        hist["inside_guard_eval_pairs"] = sum(pairs_of.get(n, 0) for n in in_n)
+        hist["inside_guard_pushin_empty_disagreements"] = sum(pushin_of.get(n, 0) for n in in_n)
+        hist["outside_guard_formulas"] = len(case_of) - len(in_n)
+        run.cov["guard"] = (f"{GUARD_EXPR} (Logic/SugarComposeX.v: sugar_guard_nox s || sugar_guard_xp1 g s) evaluated by vm_compute on all {len(case_of)} decodable "
+                            f"cases: {len(in_n)} inside; their {hist['inside_guard_eval_pairs']} sugar/core evaluation pairs "
+                            "must agree unless the input is in K_pushin_empty (premise of the theorem) - no static class "
+                            "excuses a disagreement inside the guard")
+        for n, wit in excused:
+            if n in in_n:
+                eval_viol.append(dict(wit, kind="INSIDE the guard of C08_sugar_core_noxpath_partial / _xpath1_partial (and not "
+                                                "K_pushin_empty) but sugar and documented core evaluate differently"))
     run._eval_viol, run._disagreements = eval_viol, disagreements
     run.cov["ast_cases"] = len(cases)
     run.cov["histogram"] = hist
